@@ -19,10 +19,11 @@ from commonroad.common.writer.file_writer_interface import OverwriteExistingFile
 from commonroad.planning.planning_problem import PlanningProblemSet
 from commonroad.scenario.scenario import Location, Tag
 
+import commonroad.common.writer.file_writer_protobuf as wp
+
 from harness import fixtures as fx
 from harness import xmlrt
-from harness.xmlrt import install_shims  # noqa: F401
-from symex import dom, fmt, strs
+from symex import dom, fmt, pbstub, strs
 from symex.api import obligation
 from symex.core import SymBool, SymInt
 
@@ -38,13 +39,79 @@ ASSUMPTIONS = [
     "overwrite policy: real files in a scratch directory, concrete scenario, every combination of format x method x mode x "
     "file-exists explored",
 ]
-OUTSIDE = ["lxml serialisation", "OverwriteExistingFile.ASK_USER_INPUT (interactive)", "writes of the protobuf writer on symbolic scenarios "
-           "(its constructions are part of the histories; its own repeatability is checked on a concrete scenario)", "more than two writers"]
-STUBS = ["DOM passthrough tree", "number-formatting contract"]
+OUTSIDE = ["lxml serialisation", "OverwriteExistingFile.ASK_USER_INPUT (interactive)", "the protobuf wire format (the message handed to file.write is compared; concrete replays compare the parsed bytes without the time stamp)",
+           "more than two writers"]
+STUBS = ["DOM passthrough tree", "number-formatting contract", "protobuf message stubs; capture of the bytes handed to the output file"]
 F = ["commonroad/common/writer/file_writer_interface.py:FileWriter.__init__", "commonroad/common/writer/file_writer_interface.py:FileWriter._handle_file_path",
      "commonroad/common/writer/file_writer_xml.py:XMLFileWriter.write_to_file", "commonroad/common/writer/file_writer_xml.py:XMLFileWriter.write_scenario_to_file",
      "commonroad/common/writer/file_writer_xml.py:float_to_str", "commonroad/common/writer/file_writer_xml.py:*XMLNode.*",
      "commonroad/common/file_writer.py:CommonRoadFileWriter", "commonroad/common/writer/file_writer_protobuf.py:ProtobufFileWriter.write_to_file"]
+
+PB_WRITES = []  # (file name, what the protobuf writer handed to file.write)
+
+
+class _CapturingFile:
+    def __init__(self, name):
+        self.name = name
+
+    def write(self, data):
+        PB_WRITES.append((self.name, data))
+
+    def __enter__(self):
+        return self
+
+    def __exit__(self, *a):
+        return False
+
+
+def _open(name, mode="r", *a, **k):
+    import builtins
+
+    if "w" in mode and "b" in mode and str(name).startswith(tempfile.gettempdir()):
+        return _CapturingFile(name)
+    return builtins.open(name, mode, *a, **k)
+
+
+def install_shims():
+    """symbolic runs: the XML writer gets the DOM passthrough, the protobuf writer the message stubs, and the bytes it would write
+    to its output file are captured as the message they serialise (I/O boundary)"""
+    xmlrt.install_shims()
+    pbstub.install(wp)
+    wp.open = _open
+
+
+def pb_plain(d):
+    if isinstance(d, dict):
+        return tuple((k, pb_plain(v)) for k, v in sorted(d.items()) if k != "date")
+    if isinstance(d, (list, tuple)):
+        return tuple(pb_plain(x) for x in d)
+    return d
+
+
+def pb_content_concrete(data):
+    """a protobuf file without its time stamp (year .. minute), in deterministic serialisation"""
+    import importlib
+
+    m = importlib.import_module("commonroad.scenario_definition.protobuf_format.generated_scripts.commonroad_pb2").CommonRoad()
+    m.ParseFromString(data)
+    m.information.ClearField("date")
+    return m.SerializePartialToString(deterministic=True)
+
+
+def plain_eq(V, a, b, conds):
+    if isinstance(a, tuple) or isinstance(b, tuple):
+        if not (isinstance(a, tuple) and isinstance(b, tuple) and len(a) == len(b)):
+            conds.append(False)
+            return
+        for x, y in zip(a, b):
+            plain_eq(V, x, y, conds)
+            if conds and conds[-1] is False:
+                return
+        return
+    from symex.core import Sym
+
+    conds.append(V.eq(a, b) if isinstance(a, Sym) or isinstance(b, Sym) else (type(a) is type(b) and a == b))
+
 
 ARGS = {"A": ("author A", "affiliation A", "source A", {Tag.URBAN}), "B": ("author B", "affiliation B", "source B", {Tag.HIGHWAY, Tag.SIMULATED})}
 DATE = re.compile(rb'date="[^"]*"')
@@ -147,13 +214,35 @@ class World:
         """calls the write method with a fresh file name; returns the content that reached the file"""
         self.n += 1
         path = os.path.join(self.tmp, f"out{self.n}.xml")
-        n_before = len(dom.WRITES)
+        n_before, p_before = len(dom.WRITES), len(PB_WRITES)
         getattr(w, method)(path, OverwriteExistingFile.ALWAYS)
+        if w._file_format is FileFormat.PROTOBUF:
+            if self.V.symbolic:
+                if len(PB_WRITES) != p_before + 1:
+                    return None
+                return pb_plain(pbstub.dump(PB_WRITES[-1][1].msg))
+            return pb_content_concrete(open(path, "rb").read()) if os.path.isfile(path) else None
         if self.V.symbolic:
             if len(dom.WRITES) != n_before + 1:
                 return None
             return content_symbolic()
         return content_concrete(path) if os.path.isfile(path) else None
+
+    def reference_pb(self, key, prec, method):
+        """the message a protobuf writer with these arguments has to write"""
+        keep = wi.precision.decimals
+        try:
+            w = self.new_writer(key, FileFormat.PROTOBUF, prec)._file_writer
+            w._commonroad_msg = wp.commonroad_pb2.CommonRoad()
+            w._write_header()
+            w._add_all_objects_from_scenario()
+            if method == "write_to_file":
+                w._add_all_planning_problems_from_planning_problem_set()
+            if self.V.symbolic:
+                return pb_plain(pbstub.dump(w._commonroad_msg))
+            return pb_content_concrete(w._commonroad_msg.SerializeToString())
+        finally:
+            wi.precision.decimals = keep
 
     def reference(self, key, prec, method):
         """what a writer with these arguments has to produce: the real node builders run in a history of their own with the
@@ -205,10 +294,12 @@ def _history(name, regime, steps, tier):
         warnings.filterwarnings("ignore")
         xmlrt.REGIME[0] = regime
         sc, pps, _check, loc = xmlrt.build(HistoryOnly(V), name)
+        pb_expressible = not name.endswith(".KST")
         prec = {"A": V.int("precision_A", 1, 12), "B": V.int("precision_B", 1, 12)}
         world = World(V, sc, pps, loc)
         try:
             ref = {(k, m): world.reference(k, prec[k], m) for k in "AB" for m in ("write_to_file", "write_scenario_to_file")}
+            ref_pb = {m: world.reference_pb("B", prec["B"], m) for m in ("write_to_file", "write_scenario_to_file")} if pb_expressible else {}
             wi.precision.decimals = 4  # the module default: the history starts in a fresh process state
             writers = {}
             for step in range(steps):
@@ -220,13 +311,20 @@ def _history(name, regime, steps, tier):
                 key = "A" if op in (3, 4) else "B"
                 method = "write_to_file" if op in (3, 5) else "write_scenario_to_file"
                 w = writers.get(key)
-                if w is None or w._file_format is not FileFormat.XML:
-                    return  # not a history (the writer does not exist) / protobuf writes: see OUTSIDE
+                if w is None:
+                    return  # not a history: the writer does not exist
+                is_pb = w._file_format is FileFormat.PROTOBUF
+                if is_pb and not pb_expressible:
+                    return
                 got = world.write(w, method)
-                want = ref[(key, method)]
+                want = ref_pb[method] if is_pb else ref[(key, method)]
                 label = f"step {step + 1}: the content written equals what a fresh identical writer writes"
                 if got is None or want is None:
                     V.prove(label, False)
+                elif V.symbolic and is_pb:
+                    conds = []
+                    plain_eq(V, got, want, conds)
+                    V.prove(label, V.And(conds))
                 elif V.symbolic:
                     V.prove(label, V.And(tree_eq(got, want)))
                 else:
@@ -263,11 +361,18 @@ def overwrite_policy(V):
     default_name = V.choice("file_name", 2) == 1  # explicit path / None (name derived from the scenario id)
     ff = FileFormat.PROTOBUF if is_pb else FileFormat.XML
     tmp = tempfile.mkdtemp(prefix="c15_")
+    import builtins
+
     keep_etree = wr.etree
-    wr.etree = lxml.etree  # real files are wanted here
+    wr.etree = lxml.etree  # real files are wanted here: real lxml, real google.protobuf, real open()
+    keep_pb = {k: v for k, v in vars(wp).items() if isinstance(v, pbstub.StubModule)}
+    for k, v in keep_pb.items():
+        setattr(wp, k, v._real)
+    keep_open = wp.__dict__.get("open")
+    wp.open = builtins.open
     try:
         def content(path):
-            return content_concrete(path) if not is_pb else open(path, "rb").read()
+            return content_concrete(path) if not is_pb else pb_content_concrete(open(path, "rb").read())
 
         a = ARGS["A"]
         ref_path = os.path.join(tmp, "ref")
@@ -320,6 +425,12 @@ def overwrite_policy(V):
         V.prove("a second write with the same writer object gives identical content", os.path.isfile(path2) and content(path2) == want)
     finally:
         wr.etree = keep_etree
+        for k, v in keep_pb.items():
+            setattr(wp, k, v)
+        if keep_open is None:
+            wp.__dict__.pop("open", None)
+        else:
+            wp.open = keep_open
         shutil.rmtree(tmp, ignore_errors=True)
 
 
@@ -335,6 +446,8 @@ MUTANTS = [
          only="overwrite-policy"),
     dict(name="protobuf-message-reused", target=_P + "ProtobufFileWriter.write_scenario_to_file",
          old="        self._commonroad_msg = commonroad_pb2.CommonRoad()\n", new="", only="overwrite-policy"),
+    dict(name="protobuf-message-reused-in-a-history", target=_P + "ProtobufFileWriter.write_scenario_to_file",
+         old="        self._commonroad_msg = commonroad_pb2.CommonRoad()\n", new="", only="history.static.rectangle"),
     dict(name="precision-clamped", target=_I + "FileWriter.__init__", old="        self._decimal_precision = decimal_precision",
          new="        self._decimal_precision = min(decimal_precision, 10)", only="history.dynamic.trajectory.KS.tiny"),
 ]
